@@ -6,6 +6,7 @@ import (
 	"fmt"
 	"os"
 	"runtime/debug"
+	"runtime/pprof"
 	"strconv"
 	"strings"
 
@@ -68,7 +69,15 @@ func main() {
 		r.Tier = rp.Tier
 		r.SetReplay(rp)
 	}
+	if pf := os.Getenv("VERIF_CPUPROFILE"); pf != "" {
+		w, err := os.Create(pf)
+		if err == nil {
+			pprof.StartCPUProfile(w)
+			defer pprof.StopCPUProfile()
+		}
+	}
 	f(r)
+	pprof.StopCPUProfile()
 	r.Finish()
 }
 
